@@ -167,13 +167,22 @@ def run_check(prop, tier, seed):
         new.append(v)
 
     # write replay files for new violations and verify each in a fresh interpreter
+    # A violation is reported only after it has been reproduced in a fresh interpreter: from
+    # its minimised history alone or, failing that, by replaying the whole worker session up
+    # to it (state that earlier runs left behind in the process is part of that execution).
     reported = []
     for v in new:
         path = write_replay(prop, v)
         ok = verify_replay(path)
+        if not ok and v.get("session"):
+            ok = verify_replay(path, session=True)
+            if ok:
+                v["replay_kind"] = "session"
         v["replay_verified"] = ok
         if not ok:
-            harness_errors.append("violation did not replay identically: %s" % path)
+            harness_errors.append("a violation was seen but did not reproduce in a fresh interpreter "
+                                  "(not reported as a violation): %s signature=%s" % (path, json.dumps(v["signature"])))
+            continue
         reported.append((v, path))
 
     wall_s = time.time() - t0
@@ -186,8 +195,9 @@ def run_check(prop, tier, seed):
             prop, fid, known.describe(fid), sum(x.get("count", 1) for x in vs), vs[0]["seed"]))
     for v, path in reported:
         print("VIOLATION property=%s replay=%s" % (prop, path))
-        print("  signature=%s seed=%s hashseed=%s ops=%d (from %d)" % (
-            json.dumps(v["signature"]), v["seed"], v["hashseed"], len(v.get("ops", [])), v.get("unminimised_len", 0)))
+        print("  signature=%s seed=%s hashseed=%s ops=%d (from %d)%s" % (
+            json.dumps(v["signature"]), v["seed"], v["hashseed"], len(v.get("ops", [])), v.get("unminimised_len", 0),
+            " [reproduces only as a whole worker session: python -m provsim.replay --session FILE]" if v.get("replay_kind") == "session" else ""))
         print("  detail=%s" % json.dumps(v["detail"], default=repr)[:1500])
     if harness_errors:
         for he in harness_errors[:5]:
@@ -267,7 +277,7 @@ def write_replay(prop, v):
     return path
 
 
-def verify_replay(path):
+def verify_replay(path, session=False):
     with open(path) as f:
         rec = json.load(f)
     if rec.get("kind") == "cross":
@@ -275,8 +285,9 @@ def verify_replay(path):
     env = dict(os.environ, PYTHONHASHSEED=str(rec.get("hashseed", 0)))
     env["PYTHONPATH"] = VERIF + os.pathsep + env.get("PYTHONPATH", "")
     try:
-        p = subprocess.run([PY, "-m", "provsim.replay", path], cwd=VERIF, env=env,
-                           stdout=subprocess.PIPE, stderr=subprocess.PIPE, timeout=300)
+        p = subprocess.run([PY, "-m", "provsim.replay"] + (["--session"] if session else []) + [path],
+                           cwd=VERIF, env=env, stdout=subprocess.PIPE, stderr=subprocess.PIPE,
+                           timeout=1200 if session else 300)
     except subprocess.TimeoutExpired:
         return False
     out = p.stdout.decode("utf-8", "replace")
